@@ -165,7 +165,8 @@ func c01Concurrent(c *Ctx) {
 	e := c07NewEnv(c)
 	defer e.up.Close()
 	vrt.Enabled = true
-	defer func() { vrt.Enabled = false }()
+	vrt.AllStatements = map[string]bool{"pkg/middleware": true}
+	defer func() { vrt.Enabled = false; vrt.AllStatements = nil }()
 	bound := 1
 	if !c.Quick() {
 		bound = 2
@@ -187,7 +188,15 @@ func c01Concurrent(c *Ctx) {
 			c.Error("C01 concurrent %+v: %s", sc, serr)
 			continue
 		}
-		stats := explore.Run(explore.Config{MaxCost: bound, Deadline: c.Deadline, Shard: c.Shard, Shards: c.Shards, ShardDepth: 2}, func(x *explore.Exec, own bool) {
+		every := vrt.AllStatements
+		if len(every) > 0 && !concStatementLevelOK(func(x *explore.Exec) { body(x) }) {
+			vrt.AllStatements = nil
+			c.Inc("conc_scenarios_without_statement_level_scheduling")
+			if c.Shard == 0 {
+				c.Note("concurrent scenario %+v: statement paths differ between identical executions (map iteration order?): explored with access-based scheduling points only", sc)
+			}
+		}
+		stats := explore.Run(explore.Config{MaxCost: bound, Deadline: c.Deadline, Shard: c.Shard, Shards: c.Shards, ShardDepth: 2, TolerateDivergence: true, MaxDivergences: 16}, func(x *explore.Exec, own bool) {
 			out, v, berr := body(x)
 			if !own {
 				return
@@ -224,6 +233,10 @@ func c01Concurrent(c *Ctx) {
 			}
 		})
 		c.Add("states", int64(stats.Executions))
+		vrt.AllStatements = every
+		if stats.Divergences > 0 {
+			c.Unstable("concurrent scenario %+v: %d executions did not reproduce their replayed prefix", sc, stats.Divergences)
+		}
 		if !stats.Exhaustive {
 			c.Exhaustive = false
 			c.Note("concurrent part %+v: not exhaustive (level completed %d)", sc, stats.LevelCompleted)
@@ -238,7 +251,8 @@ func c01ConcReplayOne(c *Ctx, rp c01ConcReplay) string {
 	e := c07NewEnv(c)
 	defer e.up.Close()
 	vrt.Enabled = true
-	defer func() { vrt.Enabled = false }()
+	vrt.AllStatements = map[string]bool{"pkg/middleware": true}
+	defer func() { vrt.Enabled = false; vrt.AllStatements = nil }()
 	px, err := c01ConcProxy(e)
 	if err != nil {
 		return err.Error()
